@@ -497,6 +497,7 @@ def check(chk):
         isinstance(x, ast.Call) and call_attr(x) == "isalpha" for x in ast.walk(g.node))
     chk.ob("TABLE-3", "a number without unit means seconds for secs-typed settings", ok, g.where(), construct=g.ident, text="default unit s")
 
+    _or_token_wrapper(chk, repo, cv)
     _total_validators(chk, repo, cv)
     _list_helpers(chk, repo)
     _pass_through_and_patterns(chk, repo, cv)
@@ -526,6 +527,31 @@ def check(chk):
         base = tok[:-len("_or_token")]
         chk.ob("SIB-6", "`%s` wraps the validator of `%s`" % (tok, base), table[tok][1] is True and table[tok][0] == table.get(base, (None,))[0],
                "%s:%s" % (CV, table[tok][2]), construct=CV + "::validator_list", text="wrapper %s" % tok)
+
+
+def _or_token_wrapper(chk, repo, cv):
+    """SIB-6 (wrapper): `X_or_token` validates a plain value exactly like `X`: the wrapper calls the wrapped validator with the item, the failure
+    info *and the spec's parameter* (the range of int(min,max) / float(min,max)), on every path that is not a token; a token keeps the
+    wrapped validator itself for its later replacement."""
+    w = cv.methods.get("_validate_type_or_token")
+    chk.need(w is not None, "SIB-6", "ConfigValidator has the or_token wrapper", repo.func(CV, "ConfigValidator.validate_config_item"))
+    chk.analysed(w)
+    inner = [x for x in ast.walk(w.node) if isinstance(x, ast.FunctionDef) and x is not w.node]
+    chk.need(len(inner) == 1, "SIB-6", "the or_token wrapper defines the wrapping validator", w)
+    from sa.cfg import build_cfg
+    icfg = build_cfg(inner[0])
+    wrapped = w.node.args.args[-1].arg if w.node.args.args else "func"
+    ps = [a.arg for a in inner[0].args.args]
+    direct = [(n, c) for n in icfg.nodes if n.kind == "stmt" for c in n.calls() if isinstance(c.func, ast.Name) and c.func.id == wrapped]
+    ok = bool(direct) and all([src(a) for a in c.args] + [k.arg + "=" + src(k.value) for k in c.keywords if k.arg] in (ps, ps[:2] + ["param=" + ps[2]]) for n, c in direct if len(ps) == 3)
+    chk.ob("SIB-6", "the or_token wrapper validates a plain value with the wrapped validator, handing on item, failure info and the spec's parameter", ok and len(ps) == 3,
+           w.where(direct[0][1]) if direct else w.where(), detail="calls: %s" % [src(c) for n, c in direct], construct=w.ident, text="or_token direct call")
+    toks = [(n, c) for n in icfg.nodes if n.kind == "stmt" for c in n.calls() if call_attr(c) == "RuntimeToken"]
+    ok = bool(toks) and all(len(c.args) == 2 and (src(c.args[1]) == wrapped or ("partial(" in src(c.args[1]) and wrapped in src(c.args[1]))) for n, c in toks)
+    chk.ob("SIB-6", "a runtime token keeps the wrapped validator for its replacement", ok, w.where(), construct=w.ident, text="or_token token branch")
+    via = [n.id for n, c in direct] + [n.id for n, c in toks]
+    pth = icfg.must_pass(icfg.entry.id, via) if via else [icfg.entry.id]
+    chk.ob("SIB-6", "every path of the wrapper validates or defers (token)", pth is None, w.where(), construct=w.ident, text="or_token total")
 
 
 def _total_validators(chk, repo, cv):
@@ -845,6 +871,8 @@ def battery():
     from sa.battery import M
     Y = "mpf/config_spec.yaml"
     return [
+        M("or_token validators drop the spec's range", CV, "            return func(item, validation_failure_info, param)", "            return func(item, validation_failure_info)", "SIB-6"),
+        M("merged specs cached on the class", CV, "    @lru_cache(1024)\n    def build_spec(self, config_spec, base_spec):\n        \"\"\"Build config spec out of two or more specs.\"\"\"\n", "    _built = {}\n\n    def build_spec(self, config_spec, base_spec):\n        \"\"\"Build config spec out of two or more specs.\"\"\"\n        if (config_spec, base_spec) in self._built:\n            return self._built[(config_spec, base_spec)]\n        self._built[(config_spec, base_spec)] = {}\n", "SHARED-0"),
         M("spec uses unknown validator", Y, "    level_x: single|int|0", "    level_x: single|integer|0", "TABLE-2"),
         M("spec gives param to bool", Y, "    disable_random: single|bool|false", "    disable_random: single|bool(0,1)|false", "TABLE-2"),
         M("spec enum default not a member", Y, "single|enum(", "single|enum(zzz_only_this,", None, nth=0),   # adding a member is harmless (twin)
